@@ -1950,8 +1950,8 @@ def mnemo_from_att(prefix, name, args, asm_format):
         if name.endswith('w'):
             name = name[:-1]
             mnemo_from_att_set_size(x86_afs.u16, args)
-        elif len(name) > 5 and name.endswith('l'):
-            # Don't transform cmovl to cmov
+        elif name.endswith('l') and not name in [ 'cmovl', 'cmovnl' ]:
+            # Don't transform cmovl to cmov, nor cmovnl to cmovn
             name = name[:-1]
             mnemo_from_att_set_size(x86_afs.u32, args)
         else:
